@@ -216,7 +216,7 @@ def gen_c11(tier, seed):
             parts = ["rlimit 64", "N 1", start_tokens(1, {"stop": KILL_POLICY}), "K 1", "W 1 -1", "D 1"] + parts
         parts += ["OPENFDS %d %d %d" % (nfds, r.randrange(100000), inclmax), "N 0", start_tokens(0, o), "K 0", "W 0 -1", "D 0"]
         cases.append(Case("c11-%d" % i, " ; ".join(parts), {"opts": o, "limit": limit, "inclmax": inclmax, "mask": mask},
-                          "c11/%d/%d/%d/%d" % (limit, nfds, inclmax, i % len(fams))))
+                          "c11/%d/%d/%d/%d/%d" % (limit, nfds, inclmax, i % len(fams), i)))
     return cases
 
 
@@ -379,7 +379,7 @@ def gen_c03(tier, seed):
                 meta["wd_is_child_dir"] = 1
             parts += ["N 0", start_tokens(0, o)]
         parts += ["K 0", "W 0 -1", "D 0"]
-        cases.append(Case("c03-%d" % i, " ; ".join(parts), meta, "c03/%d/%d/%s/%s/%s" % (kind, nargs, penv, behavior, nextra)))
+        cases.append(Case("c03-%d" % i, " ; ".join(parts), meta, "c03/%d/%d/%s/%s/%s/%d" % (kind, nargs, penv, behavior, nextra, i)))
     return cases
 
 
@@ -480,14 +480,52 @@ def judge_c03(case, log):
     return vs, obs, True
 
 
+def judge_c05_configs(case, log):
+    """C05 over every redirect configuration of C10: ledger, descriptor table, user objects."""
+    vs = []
+    obs = {"config_ledger_checks": 0}
+    if common_fail("C05", log, vs):
+        return vs, obs, False
+    fin = log.fin
+    if fin.get("hang"):
+        return vs, obs, False
+    obs["config_ledger_checks"] = 1
+    cls = "closed-std" if case.meta["mask"] else ("after-failed-start" if case.meta.get("after_failed_start") else "all-open")
+    if fin.get("double_close"):
+        V(vs, "C05", "double-close:config:%s" % cls, "descriptor closed twice (config %s)" % case.meta["opts"])
+    if fin.get("foreign_close"):
+        V(vs, "C05", "foreign-close:config:%s" % cls, "close of a descriptor the library did not open (config %s)" % case.meta["opts"])
+    if fin.get("unknown_free"):
+        V(vs, "C05", "unknown-free:config:%s" % cls, "free of a pointer the library did not allocate (config %s)" % case.meta["opts"])
+    if fin.get("owned_fds"):
+        V(vs, "C05", "fd-leak:config:%s" % cls, "descriptors still owned after destroy: %s (config %s)" % (fin["owned_fds"], case.meta["opts"]))
+    if fin.get("live_allocs"):
+        V(vs, "C05", "memory-leak:config:%s" % cls, "%d allocations never released (config %s)" % (fin["live_allocs"], case.meta["opts"]))
+    mask = case.meta["mask"]
+    snap0 = [l for l in log.lines if l.get("snap") == 0]
+    if snap0:
+        before = sorted((f[0], f[1], f[2]) for f in snap0[0]["fds"] if not (f[0] < 3 and mask & (1 << f[0])))
+        after = sorted((f[0], f[1], f[2]) for f in fin["fds"])
+        if before != after:
+            V(vs, "C05", "fd-table-changed:config:%s" % cls, "descriptor table before %s, after %s (config %s)" % (before, after, case.meta["opts"]))
+    for h, st, kind, isopen in fin.get("user_objs", []):
+        if kind == "std" and mask & (1 << st):
+            continue
+        if not isopen:
+            V(vs, "C05", "user-object-closed:%s:config:%s" % (kind, cls), "the %s for stream %d is no longer open (config %s)" % (kind, st, case.meta["opts"]))
+    if fin.get("kids") != "none":
+        V(vs, "C05", "process-left:config:%s" % cls, "child left after wait + destroy (%s)" % fin.get("kids"))
+    return vs, obs, True
+
+
 class IdentEngine:
     name = "ident"
 
     def cases(self, prop, tier, seed):
-        return {"C10": gen_c10, "C11": gen_c11, "C03": gen_c03}[prop](tier, seed)
+        return {"C10": gen_c10, "C11": gen_c11, "C03": gen_c03, "C05": gen_c10}[prop](tier, seed)
 
     def judge(self, prop, case, log):
-        return {"C10": judge_c10, "C11": judge_c11, "C03": judge_c03}[prop](case, log)
+        return {"C10": judge_c10, "C11": judge_c11, "C03": judge_c03, "C05": judge_c05_configs}[prop](case, log)
 
 
 ENGINE = IdentEngine()
